@@ -249,4 +249,111 @@ theorem ingredientA_spec (env : Env) (input : Str) (li : Loc (PIngredient α)) (
   rw [h0]
   exact ingrBuild_spec env input li _ { s with diags := d0, panic := p0 } hloc hdef hev ⟨_, rfl⟩
 
+/-- what `cwResolve` does to the cookware table and which item it builds -/
+theorem cwResolve_spec (env : Env) (input : Str) (lc : Loc (PCookware α)) (cw0 : Cookware (ScalableValue α))
+    (s : Col α) (hloc : s.locCw.size = s.cookware.size)
+    (hdef : ∀ (k : Nat) (cw : Cookware (ScalableValue α)), s.cookware[k]? = some cw →
+      cw.modifiers.contains Modifiers.REF = false → ∃ rf b, cw.relation = .definition rf b) :
+    ∃ dg p cws, (cwResolve env input lc cw0 s).2 = { s with diags := dg, panic := p, cookware := cws } ∧
+      (cwResolve env input lc cw0 s).1.name = cw0.name ∧
+      ((cws = s.cookware ∧ (cwResolve env input lc cw0 s).1.relation = cw0.relation) ∨
+       (∃ t defn rf b, s.cookware[t]? = some defn ∧ defn.relation = .definition rf b ∧
+          defn.modifiers.contains Modifiers.REF = false ∧ nameEq env cw0.name defn.name = true ∧
+          (cwResolve env input lc cw0 s).1.relation = .reference t ∧
+          (cwResolve env input lc cw0 s).1.modifiers.contains Modifiers.REF = true ∧
+          cws = s.cookware.setIfInBounds t
+            { defn with relation := .definition (rf ++ [s.cookware.size]) b })) := by
+  unfold cwResolve
+  simp +instances only [A_bind, A_get]
+  obtain ⟨d1, p1, h1⟩ := (resolveReference_diagOnly (α := α) env "cookware item"
+    (Modifiers.HIDDEN ||| Modifiers.OPT) (s.cookware.toList.map (fun x => (x.name, x.modifiers)))
+    cw0.name cw0.modifiers lc.span lc.val.modifiers.span).out s
+  have hout := resolveReference_out (α := α) env "cookware item"
+    (Modifiers.HIDDEN ||| Modifiers.OPT) (s.cookware.toList.map (fun x => (x.name, x.modifiers)))
+    cw0.name cw0.modifiers lc.span lc.val.modifiers.span s
+  generalize resolveReference (α := α) env "cookware item"
+    (Modifiers.HIDDEN ||| Modifiers.OPT) (s.cookware.toList.map (fun x => (x.name, x.modifiers)))
+    cw0.name cw0.modifiers lc.span lc.val.modifiers.span s = rr at h1 hout ⊢
+  cases ho : rr.1.2 with
+  | none =>
+    simp only [A_pure]
+    exact ⟨d1, p1, s.cookware, h1, trivial, Or.inl ⟨rfl, trivial⟩⟩
+  | some o =>
+    obtain ⟨hsn, hREF⟩ := hout o ho
+    obtain ⟨n, m, hex, hmREF, hname⟩ := sameNameIdx_spec _ _ _ _ hsn
+    simp only [List.getElem?_map, Array.getElem?_toList, Option.map_eq_some_iff, Prod.mk.injEq] at hex
+    obtain ⟨defn, hdefn, rfl, rfl⟩ := hex
+    have hlt : o.refTo < s.cookware.size := by
+      rcases Nat.lt_or_ge o.refTo s.cookware.size with h | h
+      · exact h
+      · rw [Array.getElem?_eq_none h] at hdefn; cases hdefn
+    obtain ⟨defLoc, hdefLoc⟩ : ∃ dl, s.locCw[o.refTo]? = some dl :=
+      ⟨s.locCw[o.refTo]'(by omega), Array.getElem?_eq_getElem _⟩
+    obtain ⟨rf, b, hrel⟩ := hdef _ _ hdefn hmREF
+    simp +instances only [A_bind, A_get, A_pure, h1, hdefn, hdefLoc]
+    obtain ⟨d2, p2, h2⟩ := (cwRefChecks_diagOnly input lc
+      { cw0 with relation := .reference o.refTo, modifiers := rr.1.1 } defn defLoc).out
+      { s with diags := d1, panic := p1 }
+    simp only [h2, cwSetReferencedFrom, hrel, A_modify]
+    exact ⟨d2, p2, _, rfl, trivial, Or.inr ⟨o.refTo, defn, rf, b, hdefn, hrel, hmREF, hname, rfl, hREF, rfl⟩⟩
+
+/-- how `cookwareA` extends the cookware table -/
+def CwStep (env : Env) (s : Col α) (cws : Array (Cookware (ScalableValue α)))
+    (cw : Cookware (ScalableValue α)) : Prop :=
+  (cws = s.cookware ∧ ∃ b, cw.relation = .definition [] b) ∨
+  (∃ t defn rf b, s.cookware[t]? = some defn ∧ defn.relation = .definition rf b ∧
+    defn.modifiers.contains Modifiers.REF = false ∧ nameEq env cw.name defn.name = true ∧
+    cw.relation = .reference t ∧ cw.modifiers.contains Modifiers.REF = true ∧
+    cws = s.cookware.setIfInBounds t { defn with relation := .definition (rf ++ [s.cookware.size]) b })
+
+theorem cwBuild_spec (env : Env) (input : Str) (lc : Loc (PCookware α)) (cw0 : Cookware (ScalableValue α))
+    (s : Col α) (hloc : s.locCw.size = s.cookware.size)
+    (hdef : ∀ (k : Nat) (cw : Cookware (ScalableValue α)), s.cookware[k]? = some cw →
+      cw.modifiers.contains Modifiers.REF = false → ∃ rf b, cw.relation = .definition rf b)
+    (h0 : ∃ b, cw0.relation = .definition [] b) :
+    ∃ dg p cws cw, cwBuild env input lc cw0 s =
+        (s.cookware.size, { s with diags := dg, panic := p, cookware := cws.push cw,
+                                   locCw := s.locCw.push lc }) ∧
+      cws.size = s.cookware.size ∧ CwStep env s cws cw := by
+  unfold cwBuild
+  simp +instances only [A_bind, A_get, A_pure, A_modify]
+  obtain ⟨d1, p1, cws, h1, hname, hcase⟩ := cwResolve_spec env input lc cw0 s hloc hdef
+  refine ⟨d1, p1, cws, (cwResolve env input lc cw0 s).1, ?_, ?_, ?_⟩
+  · rw [h1]
+    rcases hcase with ⟨he, _⟩ | ⟨t, defn, rf, b, _, _, _, _, _, _, he⟩ <;> rw [he] <;>
+      simp only [Array.size_push, Array.size_setIfInBounds, Nat.add_sub_cancel]
+  · rcases hcase with ⟨he, _⟩ | ⟨t, defn, rf, b, _, _, _, _, _, _, he⟩ <;> rw [he]
+    simp only [Array.size_setIfInBounds]
+  · rcases hcase with ⟨he, hr⟩ | ⟨t, defn, rf, b, h1, h2, h3, h4, h5, h6, he⟩
+    · obtain ⟨b, hb⟩ := h0
+      exact Or.inl ⟨he, b, by rw [hr, hb]⟩
+    · exact Or.inr ⟨t, defn, rf, b, h1, h2, h3, by rw [hname]; exact h4, h5, h6, he⟩
+
+theorem cookwareA_spec (env : Env) (input : Str) (lc : Loc (PCookware α)) (s : Col α)
+    (hloc : s.locCw.size = s.cookware.size)
+    (hdef : ∀ (k : Nat) (cw : Cookware (ScalableValue α)), s.cookware[k]? = some cw →
+      cw.modifiers.contains Modifiers.REF = false → ∃ rf b, cw.relation = .definition rf b) :
+    ∃ dg p cws cw, cookwareA env input lc s =
+        (s.cookware.size, { s with diags := dg, panic := p, cookware := cws.push cw,
+                                   locCw := s.locCw.push lc }) ∧
+      cws.size = s.cookware.size ∧ CwStep env s cws cw := by
+  unfold cookwareA
+  simp +instances only [A_bind, A_get]
+  obtain ⟨d0, p0, h0⟩ := (optValueOf_diagOnly env lc.val.quantity).out s
+  generalize optValueOf env lc.val.quantity s = qq at h0 ⊢
+  rw [h0]
+  exact cwBuild_spec env input lc _ { s with diags := d0, panic := p0 } hloc hdef ⟨_, rfl⟩
+
+/-- `timerA` pushes one timer that has a quantity exactly when the event has one -/
+theorem timerA_spec (env : Env) (lt : Loc (PTimer α)) (s : Col α) :
+    ∃ dg p tm, timerA env lt s = (s.timers.size, { s with diags := dg, panic := p, timers := s.timers.push tm }) ∧
+      tm.name.isSome = lt.val.name.isSome ∧ tm.quantity.isSome = lt.val.quantity.isSome := by
+  unfold timerA
+  simp +instances only [A_bind, A_get, A_pure, A_modify]
+  obtain ⟨d0, p0, h0⟩ := (timerQuantity_diagOnly env lt.val.quantity).out s
+  refine ⟨d0, p0, ⟨lt.val.name.map (·.trimmed env.cs), (timerQuantity env lt.val.quantity s).1⟩, ?_, ?_, ?_⟩
+  · rw [h0]; simp only [Array.size_push, Nat.add_sub_cancel]
+  · simp only [Option.isSome_map]
+  · exact timerQuantity_isSome env _ s
+
 end Cook
